@@ -100,6 +100,12 @@ def run_case(ctx, case):
     # ---- run the generated test straight afterwards -----------------------------------
     res = G.run_script(ctx, g)
     rec.event('script:run')
+    if case['decoys']:
+        gone = [rel for rel, data in G.DECOYS.items() if not os.path.exists(os.path.join(g.workdir, rel))
+                or open(os.path.join(g.workdir, rel), 'rb').read() != data]
+        gone = [r_ for r_ in gone if not (r_ == 'test_other.py' and False)]
+        if gone:
+            rec.violation('pre_existing_file_lost_when_test_runs', {'case': case, 'mech': mech, 'facts': {'files': gone}})
     if res.status != 0 or res.failed or not res.n_tests:
         rec.violation('generated_test_does_not_pass', {
             'case': case, 'mech': {'failed': res.failed, 'status': res.status,
